@@ -26,7 +26,8 @@ MANIFEST = {
             "language packages; every class of the PyDSDL hierarchy is looked up on cold loaders and after random lookup "
             "histories, the returned template is read through get_source and compared with the documented two-phase nearest-"
             "ancestor rule; instance tests are compared with isinstance on every object of parsed namespaces; every existing "
-            "filter/test/global name is offered as a user addition and must raise or leave the bound object unchanged.",
+            "filter/test/global name is offered as a user addition and must raise or leave the bound object unchanged."
+            " User and built-in directories also hold look-alikes of class names (Class.old.j2, Class.v2.j2, xClass.j2, lower-case spellings) that must never be chosen.",
     "note": "Reference rule: nearest ancestor in the user set, else nearest in the built-in set (documented file-system-first fallback). "
             "allow_filter_test_or_use_query_overwrite=True is the documented opt-out and not judged.",
 }
